@@ -1287,3 +1287,122 @@ def r01_14_gregorian_fast_tables(ctx: Ctx) -> RuleResult:
             else:
                 M._fold_memo[(id(c), nm)] = old
     return rr
+
+
+@rule("C01")
+def r01_15_eras_are_compared_as_objects(ctx: Ctx) -> RuleResult:
+    """Era has no __eq__: eras are interned objects compared by identity, and two DIFFERENT eras share the name "AM" (anno
+    martyrum of the Coptic calendar, anno mundi of the Hebrew ones).  A guard that compares `era.name` (or the resource
+    identifier) instead of the era accepts the foreign era: the Coptic calendar then answers year-of-era queries for a Hebrew
+    era.  Every comparison that involves an Era-typed expression in the calendar layer compares the objects themselves."""
+    rr = RuleResult("R01.15", "era guards compare Era objects, never an attribute of them (two distinct eras are both named \"AM\")", min_instances=4)
+    M = ctx.M
+    era = M.cls("Era", required=True)
+    if any(f.name == "__eq__" for f in era.all_defs):
+        raise AnalysisError("Era now defines __eq__: R01.15's premise (identity-compared) must be re-read")
+    for f in sorted(set(M.func_of_node.values()), key=lambda x: x.qual):
+        if isinstance(f.node, ast.Lambda) or not (f.mod.rel.startswith("pyoda_time/calendars/") or f.mod.rel in ("pyoda_time/_calendar_system.py", "pyoda_time/_local_date.py", "pyoda_time/_year_month.py")):
+            continue
+        typed = {p.arg for p in f.params if p.annotation is not None and "Era" in {x.id for x in ast.walk(p.annotation) if isinstance(x, ast.Name)} | {x.value for x in ast.walk(p.annotation) if isinstance(x, ast.Constant) and isinstance(x.value, str)}}
+        fields = set()
+        if f.cls is not None:
+            for g in f.cls.all_defs:
+                if isinstance(g.node, ast.Lambda):
+                    continue
+                gt = {p.arg for p in g.params if p.annotation is not None and "Era" in unparse(p.annotation).replace("Eras", "")}
+                for n in own_nodes(g.node):
+                    if isinstance(n, (ast.Assign, ast.AnnAssign)) and getattr(n, "value", None) is not None and isinstance(n.value, ast.Name) and n.value.id in gt:
+                        for t in [n.target] if isinstance(n, ast.AnnAssign) else n.targets:
+                            if isinstance(t, ast.Attribute) and isinstance(t.value, ast.Name) and t.value.id == g.self_name:
+                                fields.add(t.attr)
+
+        def is_era(e) -> bool:
+            if isinstance(e, ast.Name):
+                return e.id in typed
+            if isinstance(e, ast.Attribute) and isinstance(e.value, ast.Name):
+                return (e.value.id == f.self_name and e.attr in fields) or e.value.id == "Era"
+            return False
+
+        for n in own_nodes(f.node):
+            if not isinstance(n, ast.Compare):
+                continue
+            sides = [n.left, *n.comparators]
+            if any(isinstance(s, ast.Constant) and s.value is None for s in sides):
+                continue
+            direct = [s for s in sides if is_era(s)]
+            via_attr = [s for s in sides if isinstance(s, ast.Attribute) and is_era(s.value) and not is_era(s)]
+            if via_attr:
+                rr.inst()
+                rr.fail(f.qual, f"`{unparse(n)[:90]}` compares `{unparse(via_attr[0])}` instead of the era: Era.anno_martyrum (Coptic) and Era.anno_mundi (Hebrew) are distinct eras with the same name \"AM\", so the foreign era passes the guard", ctx.loc(f, n))
+            elif direct:
+                rr.inst()
+                rr.ok({"fn": f.qual, "test": unparse(n)[:60]})
+    return rr
+
+
+@rule("C01")
+def r01_16_single_era_year_bounds(ctx: Ctx) -> RuleResult:
+    """In a single-era calendar the year of era IS the absolute year, so the era's minimum / maximum year and the range check of
+    get_absolute_year are the year bounds of the calendar's own calculator - Um Al Qura starts at 1318, not at 1.  The
+    constructor and the three queries are evaluated by the abstract interpreter for a calculator with bounds [1318, 1500] (and
+    [-9998, 9999]): the values handed out / checked against must be exactly those bounds."""
+    from ..absint import Iv, Obj
+    from ..oblig import interp
+
+    rr = RuleResult("R01.16", "single-era calendars report and enforce the year bounds of their own calculator as the bounds of the era (evaluated)", min_instances=6)
+    M = ctx.M
+    c = M.cls("_SingleEraCalculator", required=True)
+    ctor = next((f for f in c.all_defs if f.name == "_ctor"), None)
+    if ctor is None:
+        raise AnalysisError("_SingleEraCalculator._ctor not found")
+    ymd_param = next((p.arg for p in ctor.params if p.annotation is not None and "YearMonthDayCalculator" in unparse(p.annotation)), None)
+    era_param = next((p.arg for p in ctor.params if p.annotation is not None and unparse(p.annotation).strip("'\"") == "Era"), None)
+    if ymd_param is None or era_param is None:
+        raise AnalysisError("_SingleEraCalculator._ctor: calculator / era parameters not found")
+    for lo, hi in ((1318, 1500), (-9998, 9999)):
+        I = interp(ctx)
+        I.max_depth = 3
+        era = Obj("Era", {})
+        rets, _ = I.analyse(ctor, params={ymd_param: Obj("_YearMonthDayCalculator", {"_min_year": Iv(lo, lo), "_max_year": Iv(hi, hi)}), era_param: era})
+        objs = [v for v, _s in rets if isinstance(v, Obj)]
+        if len(objs) != 1:
+            raise AnalysisError(f"_SingleEraCalculator._ctor not evaluated to one object ({len(rets)} results)")
+        so = objs[0]
+        for qname, want in (("_get_min_year_of_era", lo), ("_get_max_year_of_era", hi)):
+            f = M.find_method(c, qname)
+            if f is None:
+                raise AnalysisError(f"_SingleEraCalculator.{qname} missing")
+            rr.inst()
+            I = interp(ctx)
+            I.max_depth = 3
+            r2, _ = I.analyse(f, self_obj=so, params={p.arg: era for p in f.value_params})
+            rr.states += 1
+            vals = [v for v, _s in r2]
+            if vals and all(isinstance(v, Iv) and v.const and v.lo == want for v in vals):
+                rr.ok({"query": qname, "calculator bounds": (lo, hi), "answer": want})
+            elif vals and all(isinstance(v, Iv) and v.const for v in vals):
+                got = sorted({int(v.lo) for v in vals})
+                rr.fail(f.qual, f"for a calendar whose years run {lo}..{hi} the era's {'minimum' if 'min' in qname else 'maximum'} year is reported as {got}: years {min(got[0], want)}..{max(got[0], want) - 1 if got[0] < want else max(got[0], want)} pass the year-of-era guard of the parser and reach a calculator that has no such year", ctx.loc(f))
+            else:
+                rr.fail(f.qual, f"the answer for a calculator with bounds {lo}..{hi} is not the constant {want} ({[repr(v)[:30] for v in vals]})", ctx.loc(f))
+        f = M.find_method(c, "_get_absolute_year")
+        if f is None:
+            raise AnalysisError("_SingleEraCalculator._get_absolute_year missing")
+        rr.inst()
+        seen = []
+
+        def on_call(call, callee, bound, st, fn, seen=seen):
+            if callee.name == "_check_argument_range":
+                seen.append((bound.get("min_inclusive"), bound.get("max_inclusive")))
+
+        I = interp(ctx)
+        I.max_depth = 3
+        I.on_call = on_call
+        ps = {p.arg: (era if p.annotation is not None and "Era" in unparse(p.annotation) else Iv(lo, hi)) for p in f.value_params}
+        I.analyse(f, self_obj=so, params=ps)
+        ok = [b for b in seen if all(isinstance(x, Iv) and x.const for x in b) and (int(b[0].lo), int(b[1].lo)) == (lo, hi)]
+        if ok:
+            rr.ok({"query": "_get_absolute_year", "range check": (lo, hi)})
+        else:
+            rr.fail(f.qual, f"the year of era is not range-checked against the calculator's bounds {lo}..{hi} (checks seen: {[(repr(a), repr(b)) for a, b in seen]})", ctx.loc(f))
+    return rr
